@@ -235,7 +235,7 @@ func runC16(cfg runCfg, res *Result) error {
 	}
 	serverBinary = race
 	defer func() { serverBinary = "" }()
-	dur := 6 * time.Second
+	dur := 8 * time.Second
 	rounds := 1
 	if cfg.tier == "thorough" {
 		dur, rounds = 40*time.Second, 4
